@@ -271,3 +271,33 @@ func kvString(kv map[string]string) string {
 	}
 	return sb.String()
 }
+
+// SimplePaths enumerates event words along paths that never revisit a graph node and end in a sink
+// (for cyclic graphs this unrolls every loop as far as the abstract states differ — typically two iterations).
+func (g *Graph) SimplePaths(limit int) [][]*Event {
+	var out [][]*Event
+	on := map[int]bool{}
+	var walk func(n int, cur []*Event)
+	walk = func(n int, cur []*Event) {
+		if len(out) >= limit || on[n] {
+			return
+		}
+		if len(g.Out[n]) == 0 {
+			w := make([]*Event, len(cur))
+			copy(w, cur)
+			out = append(out, w)
+			return
+		}
+		on[n] = true
+		for _, e := range g.Out[n] {
+			if e.Ev == nil {
+				walk(e.To, cur)
+			} else {
+				walk(e.To, append(cur, e.Ev))
+			}
+		}
+		on[n] = false
+	}
+	walk(g.Start, nil)
+	return out
+}
